@@ -111,7 +111,7 @@ Proof.
   destruct (time_remaining ts a) as [rem|]; cbn zeta.
   - destruct (flt (fadd a (h_dur h)) (fadd a rem)) eqn:E; cbn;
       repeat split; try reflexivity; intros; try discriminate.
-  - cbn. rewrite expired_status_deadline. auto.
+  - rewrite expired_status_deadline. cbn. auto.
 Qed.
 
 (* (d) the handler's own TimeoutError, with no deadline involvement, is NOT reported as
